@@ -10,7 +10,7 @@ cd "$here" && go build -o bin/verif ./cmd/verif || exit 2
 ids=${*:-$(ls "$here/seeded")}
 for id in $ids; do
   d=$here/seeded/$id
-  prop=$(python3 -c "import json;print(json.load(open('$d/meta.json'))['property'])")
+  prop=$(python3 -c "import json;m=json.load(open('$d/meta.json'));print(m.get('check_with',m['property']))")
   if python3 -c "import json,sys;sys.exit(0 if json.load(open('$d/meta.json')).get('void_on_current_tree') else 1)"; then echo "VOID    $id ($prop): the seeded line is part of a later repair, see meta.json"; continue; fi
   ev=/tmp/evalseed-$id
   git -C /repo worktree remove --force "$ev" 2>/dev/null
